@@ -273,15 +273,26 @@ fn framing_oracle(b: &[u8]) -> Option<(String, String)> {
                     let ok = got == labels && u16::from(r.rdata.type_code()) == e.typ && r.ttl == e.ttl
                         && (is_opt || (r.class as u16 == (e.class & 0x7FFF) && r.cache_flush == (e.class & 0x8000 != 0)));
                     if !ok { return Some(("record-fields".into(), format!("record at {}: owner/type/class/ttl differ from the entry", e.off))); }
-                    // RDATA decoded from exactly its RDLENGTH bytes: the same record alone, cut at its end, gives the same RDATA
-                    let cut = &b[..e.next()];
-                    match std::panic::catch_unwind(|| simple_dns::verif::parse_record_at(cut, e.off).ok()).unwrap_or(None) {
-                        Some((r2, pos)) => {
-                            if pos != e.next() || text::rdata(&r2.rdata) != text::rdata(&r.rdata) {
-                                return Some(("rdata-not-local".into(), format!("record at {}: RDATA depends on bytes after its RDLENGTH, or cursor {} != {}", e.off, pos, e.next())));
+                    // RDATA decoded from exactly its RDLENGTH bytes: with everything after the record cut off,
+                    // or replaced by other bytes, the record must give the same RDATA and the same cursor.
+                    // (The *owner* may legitimately depend on later bytes: a label reached through a pointer
+                    // can extend past the record; such variants are skipped.)
+                    let mut flipped = b[..e.next()].to_vec();
+                    flipped.extend(b[e.next()..].iter().map(|x| !x));
+                    for variant in [&b[..e.next()], &flipped[..]] {
+                        let owner_same = std::panic::catch_unwind(|| match (simple_dns::verif::parse_name_at(variant, e.off), simple_dns::verif::parse_name_at(b, e.off)) {
+                            (Ok((n1, p1)), Ok((n2, p2))) => p1 == p2 && text::name(&n1) == text::name(&n2),
+                            _ => false,
+                        }).unwrap_or(false);
+                        if !owner_same { continue; }
+                        match std::panic::catch_unwind(|| simple_dns::verif::parse_record_at(variant, e.off).ok()).unwrap_or(None) {
+                            Some((r2, pos)) => {
+                                if pos != e.next() || text::rdata(&r2.rdata) != text::rdata(&r.rdata) {
+                                    return Some(("rdata-not-local".into(), format!("record at {}: RDATA depends on bytes after its RDLENGTH, or cursor {} != {}", e.off, pos, e.next())));
+                                }
                             }
+                            None => return Some(("rdata-not-local".into(), format!("record at {} does not parse when the bytes after its end change", e.off))),
                         }
-                        None => return Some(("rdata-not-local".into(), format!("record at {} does not parse from the message cut at its end", e.off))),
                     }
                 }
             }
